@@ -28,9 +28,12 @@ def same_ip(a, b, violations, what, shapes_as_1d=False, single=False, names_unor
     if any(not isinstance(i, str) for i in b._indices):
         violations.append(dict(key=f"{what}: identifiers are not strings: {[type(i).__name__ for i in b._indices]}"))
         return
+    # the order in which ONE individual's dictionary lists its parameters is not something the container keeps (dictionaries with the
+    # same names in another order are accepted and are equal as dictionaries); the shared order is the first individual's
+    first = a._indices[0] if a._indices else None
     for i in a._indices:
         pa, pb = a[i], b[i]
-        if (sorted(pa) != sorted(pb)) if names_unordered else (list(pa) != list(pb)):
+        if (sorted(pa) != sorted(pb)) if (names_unordered or list(pa) != list(a[first])) else (list(pa) != list(pb)):
             violations.append(dict(key=f"{what}: parameter names {list(pb)} instead of {list(pa)}"))
             return
         for k in pa:
@@ -66,12 +69,13 @@ def cast(x, kind):
     return getattr(np, kind[3:])(x if "float" in kind else round(8 * x))
 
 
-def build(ids, naming, kind="float"):
+def build(ids, naming, kind="float", mixed_key_order=False):
     from leaspy.io.outputs import IndividualParameters
     ip = IndividualParameters()
     for q, sid in enumerate(ids):
         d = {}
-        for name, shape in naming:
+        # (mixed_key_order: every other individual's dictionary lists the same parameters in the reverse order -- accepted by the container)
+        for name, shape in (list(naming)[::-1] if (mixed_key_order and q % 2 == 1) else naming):
             base = 0.125 * (q + 1) + 0.015625 * len(name)
             d[name] = cast(base, kind) if shape == () else [cast(base + 0.5 * j, kind) for j in range(shape[0])]
             if kind == "ndarray":
@@ -99,9 +103,11 @@ def standin_conversions(tier, seed):
     ]
     tmp = tempfile.mkdtemp(prefix="c16_")
     try:
-        for ids, naming, kind in itertools.product(id_sets, namings, VALUE_KINDS if tier == "thorough" else VALUE_KINDS):
-            ip = build(ids, naming, kind)
-            distinct.add((tuple(ids), str(naming), kind))
+        combos = [(i_, n_, k_, m_) for i_, n_, k_ in itertools.product(id_sets, namings, VALUE_KINDS)
+                  for m_ in ((False, True) if (k_ == VALUE_KINDS[0] and len(i_) > 1) else (False,))]
+        for ids, naming, kind, mixed in combos:
+            ip = build(ids, naming, kind, mixed)
+            distinct.add((tuple(ids), str(naming), kind, mixed))
             # table round trip
             evals += 1
             try:
